@@ -463,7 +463,10 @@ fn c15_consume_too_much_panics() {
 /// wraps, the guard passes and `self.cursor += amt` moves the cursor BACKWARDS: bytes already handed out are handed
 /// out again (C15: duplicated).  E.g. cursor = 2, pending_len = 3, amt = usize::MAX: guard 1 <= 3, cursor becomes 1.
 /// The harness states the guard's intent: a call that returns has not moved the cursor backwards.
+// After the fix (assert!(amt <= pending_len - cursor)) such a call ends in the clean assertion panic; the harness
+// is kept for reference and no longer registered (c15_consume_too_much_panics covers the panic).
 #[kani::proof]
+#[kani::should_panic]
 fn c15_defect_consume_overflow() {
     let (cursor, pending_len, amt): (usize, usize, usize) = (kani::any(), kani::any(), kani::any());
     kani::assume(cursor <= pending_len && pending_len <= PAGE_SIZE);
